@@ -137,10 +137,25 @@ def value_features(walk, step):
     return "acyclic"
 
 
+CYCLE_SAMPLES = 12
+
+
 def replay(walk_list, stress=0, epilogue=False):
     seen = set()
     jobs = []
+    kept_cycles = 0
     for w in walk_list:
+        # a step that copies a value with a cycle through a cell never returns (recorded finding of C13): a few such
+        # walks are replayed as they are, the others are cut before that step so that the rest of the walk is still
+        # compared and the run does not spend its time waiting for known hangs
+        cyc = next((i for i in range(len(w)) if w[i]["op"] in ("move", "cellset", "send") and value_features(w, i) == "cell-cycle"), None)
+        if cyc is not None:
+            if kept_cycles < CYCLE_SAMPLES:
+                kept_cycles += 1
+            elif cyc == 0:
+                continue
+            else:
+                w = w[:cyc]
         k = json.dumps([[s["op"], s["t"], s["a"], s["b"], s["res"]] for s in w])
         if k in seen:
             continue
